@@ -327,6 +327,10 @@ def run(rep, facts, tier):
     rule_16_6(rep, fx)
     rule_16_7(rep, fx)
 
+    # ------------------------------------------------------------ R16.8 crossed roles (shared lint, rdv/swaplint.py)
+    from rdv import swaplint
+    swaplint.run_rule(rep, facts['security'], 'R16.8', ['security::cryptographic', 'security::security_plugins'])
+
 
 def _reads_local(rv, l):
     r = rv['r']
